@@ -6,6 +6,7 @@ package pe1
 import (
 	"encoding/json"
 	"fmt"
+	"os"
 	"sort"
 	"strings"
 	"testing"
@@ -31,6 +32,8 @@ type e1Spec struct {
 	nt func(c e1Case, r *sim.Run, st *runStats) bool
 	// final is an extra end-of-run oracle (after fair completion)
 	final func(t vlib.TB, c e1Case, r *sim.Run, out sim.Outcome)
+	// cls adds property-specific classes of a finished run
+	cls func(r *sim.Run) []string
 }
 
 type runStats struct {
@@ -143,6 +146,14 @@ func classes(c e1Case) (cls []string, sig string, disturb int, kinds map[string]
 }
 
 func runSpec(t *testing.T, sp e1Spec) {
+	// development aid: assert other properties' monitors under this check's bias
+	if extra := os.Getenv("VERIF_E1_PROPS"); extra != "" {
+		sp.props = strings.Split(extra, ",")
+	}
+	sim.ActiveProps = map[string]bool{}
+	for _, p := range sp.props {
+		sim.ActiveProps[p] = true
+	}
 	var rc e1Case
 	if ok, _ := vlib.LoadReplay(sp.check, &rc); ok {
 		execute(t, sp, rc)
@@ -161,6 +172,9 @@ func runSpec(t *testing.T, sp e1Spec) {
 		if st.terminal {
 			cls = append(cls, "terminal")
 		}
+		if sp.cls != nil {
+			cls = append(cls, sp.cls(r)...)
+		}
 		vlib.Record(sp.check, sig, nt, cls, func() any { return c })
 	})
 }
@@ -170,7 +184,9 @@ func runSpec(t *testing.T, sp e1Spec) {
 func TestC01ClosedLoop(t *testing.T) {
 	runSpec(t, e1Spec{check: "c01-closed-loop", props: []string{"C01"},
 		bias: sim.Bias{MaxActions: 150, LargeReplicas: vlib.Thorough(), UserWeights: map[string]int{sim.UserApprove: 10, sim.UserScale: 3, sim.UserEditStep: 3, sim.UserJump: 1, sim.UserRollback: 1, sim.UserRelease: 1, sim.UserPause: 1, sim.UserResume: 2}},
-		nt:   func(c e1Case, r *sim.Run, st *runStats) bool { return st.maxStep >= 2 || (st.maxStep >= 1 && st.disturbances > 0) }})
+		nt: func(c e1Case, r *sim.Run, st *runStats) bool {
+			return st.maxStep >= 2 || (st.maxStep >= 1 && st.disturbances > 0)
+		}})
 }
 
 func TestC02Gating(t *testing.T) {
@@ -198,27 +214,46 @@ func TestC03TrafficFollowsPods(t *testing.T) {
 func TestC04NoVoid(t *testing.T) {
 	runSpec(t, e1Spec{check: "c04-no-void", props: []string{"C04"},
 		bias: sim.Bias{MaxActions: 150, ForceProvider: true, UserWeights: map[string]int{sim.UserApprove: 10, sim.UserRollback: 3, sim.UserRelease: 2, sim.UserDisable: 2, sim.UserDelete: 2, sim.UserEnable: 1, sim.UserScale: 1}},
-		nt: func(c e1Case, r *sim.Run, st *runStats) bool { return st.maxStep >= 1 && !c.S.DisableCanarySvc }})
+		nt:   func(c e1Case, r *sim.Run, st *runStats) bool { return st.maxStep >= 1 && !c.S.DisableCanarySvc }})
 }
 
 func TestC10RollbackFirst(t *testing.T) {
 	runSpec(t, e1Spec{check: "c10-cancel", props: []string{"C10"},
-		bias: sim.Bias{MaxActions: 150, ForceProvider: true, UserWeights: map[string]int{sim.UserApprove: 10, sim.UserRollback: 5, sim.UserRelease: 4}},
+		bias: sim.Bias{MaxActions: 150, ForceProvider: true, SettlePct: 6, UserWeights: map[string]int{sim.UserApprove: 8, sim.UserRollback: 5, sim.UserRelease: 4, sim.UserPause: 1, sim.UserResume: 1, sim.UserScale: 1}},
+		// non-trivial: a rollback / supersession hit a progressing release and one of the three
+		// oracles judged something (a hand-back write while armed with canary traffic, a rollback
+		// completion, a supersession restart)
 		nt: func(c e1Case, r *sim.Run, st *runStats) bool {
-			return st.maxStep >= 1 && (st.userKinds[sim.UserRollback] || st.userKinds[sim.UserRelease])
+			tr := r.W.Track()
+			return tr.Cancels > 0 && (tr.HandBacks > 0 || tr.RolledBacks > 0 || tr.Restarts > 0)
+		},
+		cls: func(r *sim.Run) []string {
+			tr := r.W.Track()
+			var out []string
+			add := func(n int, name string) {
+				if n > 0 {
+					out = append(out, name)
+				}
+			}
+			add(tr.Cancels, "cancel-armed")
+			add(tr.CancelsHot, "cancel-armed-with-canary-traffic")
+			add(tr.HandBacks, "hand-back-judged")
+			add(tr.RolledBacks, "rollback-completion-judged")
+			add(tr.Restarts, "supersession-restart-judged")
+			return out
 		}})
 }
 
 func TestC18Finalizers(t *testing.T) {
 	runSpec(t, e1Spec{check: "c18-rollout-finalizer", props: []string{"C18"},
 		bias: sim.Bias{MaxActions: 150, Restarts: true, UserWeights: map[string]int{sim.UserApprove: 10, sim.UserDelete: 6, sim.UserDisable: 1, sim.UserRollback: 1}},
-		nt: func(c e1Case, r *sim.Run, st *runStats) bool { return st.maxStep >= 1 && st.userKinds[sim.UserDelete] }})
+		nt:   func(c e1Case, r *sim.Run, st *runStats) bool { return st.maxStep >= 1 && st.userKinds[sim.UserDelete] }})
 }
 
 func TestC09Reachability(t *testing.T) {
 	runSpec(t, e1Spec{check: "c09-reachability", props: []string{"C09"},
 		bias: sim.Bias{MaxActions: 150, HostileJump: true, UserWeights: map[string]int{sim.UserApprove: 6, sim.UserJump: 6, sim.UserEditStep: 3, sim.UserScale: 2, sim.UserDisable: 1, sim.UserEnable: 1, sim.UserDelete: 1, sim.UserRollback: 1, sim.UserRelease: 2, sim.UserPause: 1, sim.UserResume: 1}},
-		nt: func(c e1Case, r *sim.Run, st *runStats) bool { return st.maxStep >= 1 && st.userKinds[sim.UserJump] }})
+		nt:   func(c e1Case, r *sim.Run, st *runStats) bool { return st.maxStep >= 1 && st.userKinds[sim.UserJump] }})
 }
 
 // C05: every exit path leaves the cluster as the user configured it. The exit (complete /
@@ -227,7 +262,7 @@ func TestC09Reachability(t *testing.T) {
 func TestC05ExitRestore(t *testing.T) {
 	runSpec(t, e1Spec{check: "c05-exit-restore", props: []string{"C05"},
 		bias: sim.Bias{MaxActions: 150, UserWeights: map[string]int{sim.UserApprove: 10, sim.UserRollback: 3, sim.UserDisable: 3, sim.UserDelete: 3, sim.UserRelease: 1, sim.UserScale: 1, sim.UserEditStep: 1, sim.UserPause: 1, sim.UserResume: 1}},
-		nt: func(c e1Case, r *sim.Run, st *runStats) bool { return st.maxStep >= 1 && st.terminal },
+		nt:   func(c e1Case, r *sim.Run, st *runStats) bool { return st.maxStep >= 1 && st.terminal },
 		final: func(t vlib.TB, c e1Case, r *sim.Run, out sim.Outcome) {
 			if !out.Terminal {
 				return // liveness is C07's verdict
